@@ -33,6 +33,7 @@ def sources():
     files += [os.path.join(LEAN_DIR, 'Gamba.lean'), os.path.join(LEAN_DIR, 'lakefile.toml'),
               os.path.join(LEAN_DIR, 'theorems.json')]
     files += sorted(glob.glob(os.path.join(LEAN_DIR, 'Driver', '*.lean')))
+    files += sorted(glob.glob(os.path.join(LEAN_DIR, 'Bridge', '*.lean')))
     return [f for f in files if os.path.exists(f)]
 
 
@@ -79,9 +80,13 @@ def gate(prop, thorough=False):
         if prop not in cache['props']:
             th = theorems().get(prop, {})
             names = [(n, 'full') for n in th.get('full', [])] + [(n, 'partial') for n in th.get('partial', [])]
+            # 'bridge': theorems of lean/Bridge/*.lean (Spec = Mathlib definition); audited with the Bridge modules imported
+            names += [(n, 'bridge') for n in th.get('bridge', [])]
             res = []
             if cache['build_ok'] and names:
-                src = 'import Gamba\n' + ''.join('#print axioms %s\n' % n for n, _ in names)
+                imports = 'import Gamba\n' + ('import Bridge.DFA\nimport Bridge.NFA\nimport Bridge.Regexp\nimport Bridge.CFG\n'
+                                              if th.get('bridge') else '')
+                src = imports + ''.join('#print axioms %s\n' % n for n, _ in names)
                 tmp = os.path.join(LEAN_DIR, '.lake', 'Audit_%s.lean' % prop)
                 open(tmp, 'w').write(src)
                 p = subprocess.run(['lake', 'env', 'lean', tmp], cwd=LEAN_DIR, stdout=subprocess.PIPE,
